@@ -102,6 +102,39 @@ def handleLimit (args : List String) (obs : String) : String :=
   | _ => "bad-case\tFAIL:bad-case"
 
 
+/-- c13b `<k>`: `k` requests are inside their handlers (all `k` threads of the handler pool) when the permit is revoked.
+    On the model (`Model/Server.lean`) the accept loop stops in one step of its own with the `k` connections still serving. -/
+def handleShutdownBusy (args : List String) (obs : String) : String :=
+  match args.mapM String.toNat? with
+  | some [k] =>
+    let s := run false (Srv.new (k + 1)) (fill k ++ [.revoke, .seeRevoked])
+    let stopped := (s.map (·.acc)) == some Acc.stopped
+    let serving := (s.map (·.serving)).getD 0
+    let model := s!"inside=1 early=0 stopped={if stopped then 1 else 0} bounded=1 refused=1 handlers_still_running={serving} out={",".intercalate (List.replicate k "200")}"
+    let verdict :=
+      if obs == "PANIC" then "FAIL:harness-panic:" else
+      let fails := (if field obs "early" == "0" then [] else ["stopped-before-revocation"]) ++
+        (if field obs "stopped" == "1" && field obs "bounded" == "1" then [] else ["no-stopped-signal-while-handlers-run"]) ++
+        (if field obs "refused" == "1" then [] else ["listener-open-after-stopped-signal"]) ++
+        (if (field obs "out").splitOn "," == List.replicate k "200" then [] else ["in-flight-request-not-completed"])
+      if fails.isEmpty then "ok" else "FAIL:" ++ ",".intercalate fails ++ ":"
+    model ++ "\t" ++ verdict
+  | _ => "bad-case\tFAIL:bad-case"
+
+/-- c12i `<k>`: failing accepts must not keep the connection tasks from running (one async thread). -/
+def handleEmfileIdle (args : List String) (obs : String) : String :=
+  match args with
+  | [_] =>
+    let model := "starved=1 served=1 stopped=1"
+    let verdict :=
+      if obs == "no-prlimit" then "free" else
+      if obs == "PANIC" then "FAIL:harness-panic:" else
+      let fails := (if field obs "served" == "1" then [] else ["failing-accepts-starve-connection-tasks"]) ++
+        (if field obs "stopped" == "1" then [] else ["not-stopped"])
+      if fails.isEmpty then "ok" else "FAIL:" ++ ",".intercalate fails ++ ":"
+    (if obs == "no-prlimit" then obs else model) ++ "\t" ++ verdict
+  | _ => "bad-case\tFAIL:bad-case"
+
 /-- c13p `<k> <j>` -/
 def handlePermit (args : List String) (obs : String) : String :=
   match args with
